@@ -23,6 +23,8 @@ func plansFor(prop string, thorough bool) ([]Plan, int) {
 			{Name: "gov-all", Const: "gov", Kinds: []string{"vote", "seen", "dkgres", "checkin", "dkgmsg"}, Depth: d(3, 4), Product: "replicas",
 				SimNum: d(60, 1500), SimDepth: d(30, 60), MaxBeh: d(1500, 30000)},
 			{Name: "val-replicas", Const: "val", Kinds: []string{"vote", "seen", "checkin"}, Depth: d(4, 6), Product: "replicas", MaxBeh: d(1000, 20000)},
+			{Name: "val2-replicas", Const: "val2", Kinds: []string{"vote", "seen", "checkin"}, Depth: d(6, 9), Product: "replicas", MaxBeh: d(6000, 0)},
+			{Name: "tie-skew", Const: "tie", Kinds: []string{"vote", "dkgres"}, Depth: d(5, 7), Product: "replicas", Skew: true, SimNum: d(100, 1000), SimDepth: d(12, 20), MaxBeh: d(800, 8000)},
 		}, replicas
 	case "C11":
 		return []Plan{
@@ -34,13 +36,14 @@ func plansFor(prop string, thorough bool) ([]Plan, int) {
 		return []Plan{
 			{Name: "val", Const: "val", Kinds: []string{"vote", "seen", "checkin"}, Depth: d(5, 7),
 				SimNum: d(60, 1500), SimDepth: d(40, 60), MaxBeh: d(2500, 40000)},
+			{Name: "val2-deep", Const: "val2", Kinds: []string{"vote", "seen", "checkin"}, Depth: d(8, 10), MaxBeh: d(0, 0)},
 			{Name: "val6", Const: "val6", Kinds: []string{"seen", "checkin"}, Depth: d(4, 7), SimNum: d(150, 2000), SimDepth: d(40, 60), MaxBeh: d(1500, 30000)},
 		}, 1
 	case "C10":
 		return []Plan{
 			{Name: "gov-bad", Const: "gov", Kinds: []string{"vote", "seen", "dkgres", "bad", "replay", "chk"}, Depth: d(3, 4),
 				SimNum: d(60, 1500), SimDepth: d(30, 50), MaxBeh: d(2500, 40000)},
-			{Name: "gov-ni", Const: "gov", Kinds: []string{"vote", "seen"}, Depth: d(7, 8), Product: "ni", Twins: "c10", MaxBeh: d(1500, 20000)},
+			{Name: "gov-ni", Const: "ni", Kinds: []string{"vote", "seen"}, Depth: d(7, 8), Product: "ni", Twins: "c10", MaxBeh: d(1500, 20000)},
 			{Name: "gov-ni-bad", Const: "gov", Kinds: []string{"vote", "seen", "dkgres", "bad", "replay"}, Depth: d(3, 4), Product: "ni", Twins: "c10", MaxBeh: d(1500, 20000)},
 		}, 1
 	case "C13":
